@@ -34,7 +34,7 @@ func isRelayCallMethod(i ssa.Instruction, names ...string) (ssa.CallInstruction,
 }
 
 func c09(p *core.Prog, r *core.Report) {
-	r.Explain = "Decides: (R1) every End() on a registered relay item is control-dependent on an exclusive transition that this invocation won (Delete ok, Entomb ok, and for the fail path additionally the timer stop), and Delete/Entomb report success only on the path that mutated the table under the write lock and never for an existing tombstone; (R2) on every admission path of the relay that returns before the items are registered, a started call is ended exactly once (path counting over the acyclic CFG); (R3) the pending counter is incremented only by admission and decremented exactly once after each won transition and on the admission roll-back, each time re-evaluating the close state; (R4) registering an item always arms its timer for the same id and table, tombstones are scheduled for deletion, and timers are released only by Delete; (R5) relay statistics are not reported on an item that may already have been ended: a report on an item fetched from the table must be made under the table lock or after winning the timer stop. An id still present in the table (live or tombstone) is never admitted again. The timer of a looked-up item is stopped under the table lock; every successful return of Entomb turned a live item into a tombstone; the pending roll-back is path-counted (exactly one decrement on every unregistered return after admission). A frame the receiving relayer cannot queue fails that side's item on every path. A lookup that stops an item's timer happens only in a function that goes on to entomb / delete the item."
+	r.Explain = "Decides: (R1) every End() on a registered relay item is control-dependent on an exclusive transition that this invocation won (Delete ok, Entomb ok, and for the fail path additionally the timer stop), and Delete/Entomb report success only on the path that mutated the table under the write lock and never for an existing tombstone; (R2) on every admission path of the relay that returns before the items are registered, a started call is ended exactly once (path counting over the acyclic CFG); (R3) the pending counter is incremented only by admission and decremented exactly once after each won transition and on the admission roll-back, each time re-evaluating the close state; (R4) registering an item always arms its timer for the same id and table, tombstones are scheduled for deletion, and timers are released only by Delete; (R5) relay statistics are not reported on an item that may already have been ended: a report on an item fetched from the table must be made under the table lock or after winning the timer stop. An id still present in the table (live or tombstone) is never admitted again. The timer of a looked-up item is stopped under the table lock; every successful return of Entomb turned a live item into a tombstone; the pending roll-back is path-counted (exactly one decrement on every unregistered return after admission). A frame the receiving relayer cannot queue fails that side's item on every path. A lookup that stops an item's timer happens only in a function that goes on to entomb / delete the item. Items are failed under the id that keys this connection's table (shared with C08-R2); frames of an ended call are dropped before anything is reported for them (shared with C10-R3)."
 	r.NotDecided = "the actual outcomes of the races between response, timeout, cancel and connection loss; tombstone timing."
 	r.Rule("C09-R1", "E6 guards", 6, "End only after a won exclusive transition")
 	r.Rule("C09-R2", "E6 path counting", 3, "admission failures end a started call exactly once")
